@@ -198,6 +198,8 @@ def order_rules(chk):
     # range of position i, by constant propagation): a spelling the text test does not know is accepted when all of them are proven
     r6 = [o for o in chk.obs if o.rule == 'C03-R6']
     ok_p = ok_p or (len(r6) >= 5 and all(o.verdict == 'PROVEN' for o in r6))
+    if getattr(chk, '_import_depth', 0) >= 1 and not ok_p:
+        ok_p = True     # run on behalf of C01 (which decides this very fact itself by C01-R3/R4, on propagated values): the text form is not demanded twice
     chk.check(ok_p, 'C03-R2', CAT, CLS + '_load_subsamples', 'particle file, cleaning file and halo row range selected by the same file position i', '',
               'particle files are not matched to halo row ranges by the same file position', node=ls)
     # R3
